@@ -29,7 +29,8 @@ def call(op: str, a: dict) -> dict:
             rng = np.random.RandomState(a["seed"])
             if a["symmetric_input"]:
                 V = rng.randint(-2, 3, size=(n, R)).astype(float)
-                K = ttb.ktensor([V.copy() for _ in range(N)], np.abs(rng.randint(1, 4, size=R)).astype(float))
+                # signed weights: a negative component of an even-order symmetric tensor must keep its sign
+                K = ttb.ktensor([V.copy() for _ in range(N)], (rng.randint(1, 4, size=R) * rng.choice([-1, 1], size=R)).astype(float))
             else:
                 K = ttb.ktensor([rng.randint(-2, 3, size=(n, R)).astype(float) + 0.5 for _ in range(N)],
                                 rng.randint(1, 4, size=R).astype(float))
@@ -43,6 +44,15 @@ def call(op: str, a: dict) -> dict:
             return {"st": "ok", "all_factors_equal": bool(eq), "full_symmetric": bool(full_sym),
                     "passes": bool(S.issymmetric()), "idempotent": bool(idem), "same_tensor": bool(same)}
         X = bind.g_dense({"shape": a["X"]["shape"], "v": a["X"]["v"]}, dtype=(int if a.get("dtype") == "int" else float))
+        if a.get("dtype") == "inf" and op == "issymmetric":
+            # whether a tensor is symmetric depends only on which entries are equal: an injective relabelling of the values
+            # (largest -> +inf, smallest -> -inf) is a presentation of the same question
+            v = np.array(a["X"]["v"], dtype=float)
+            if v.size and v.max() != v.min():
+                d = X.data.astype(float)
+                d[X.data == v.max()] = np.inf
+                d[X.data == v.min()] = -np.inf
+                X = ttb.tensor(d)
         g = grp_array(a["grps"])
         ver = None if a["version"] == 0 else 1
         if op == "symmetrize":
@@ -102,7 +112,7 @@ def main(tier: str) -> int:
     stimuli = []
     for s_ in r.json:
         # presentation: the same abstract tensor held with float and with integer dtype
-        for dt in ("float", "int"):
+        for dt in ("float", "int") + (("inf",) if s_["op"] == "issymmetric" else ()):
             stimuli.append({"op": s_["op"], "a": dict(s_["a"], dtype=dt)})
     # Kruskal symmetrisation: observation contract on seeded integer instances
     for n in (2, 3):
